@@ -252,3 +252,69 @@ def ts12(facts, rep, rule='TS-12'):
                                           'relies on when it prunes right subtrees' % (bad[1][1][:70], bad[1][2][:70]))
     else:
         rep.ok(rule, key, '%s:%s' % (b.file, b.line), 'ordered by interval.start (%d comparison%s)' % (n, '' if n == 1 else 's'))
+
+
+def _mentions_field(body, bb, name):
+    for pl in eng_gd.place_mentions(body, bb):
+        for el in pl.get('pj', []) or []:
+            if isinstance(el, dict) and el.get('n') == name:
+                return True
+    return False
+
+
+# ------------------------------------------------------------------------------------------------ ET-1 (C08)
+def et1(facts, rep, rule='ET-1'):
+    rep.rule(rule, 'every consumed symbol is followed by the accept test: in shift_and::Matches::next no path leads from the '
+                   'look-up of the symbol\'s mask (masks[c]) to the next look-up or to a return without passing the test of '
+                   '`active & accept`, unless the last value stored to `active` on that path is the constant 0 (then the test '
+                   'could not succeed). A shortcut that updates the automaton state without testing acceptance loses the '
+                   'occurrences that end at that symbol (for a one-symbol pattern the start bit is the accept bit)')
+    b0 = facts.method('pattern_matching::shift_and::Matches', 'next', 'Iterator')
+    key = 'shift_and::Matches::next|accept-test-after-every-symbol'
+    if b0 is None:
+        rep.missing(rule, key, 'not found')
+        return
+    sites = 0
+    for b in facts.family(b0):
+        rep.analysed_body(b)
+        ms = [bb for bb in sorted(b.reachable(0)) if _mentions_field(b, bb, 'masks')]
+        if not ms:
+            continue
+        acc = set()
+        for g in eng_gd.guards(b):
+            if '.accept' in g['text'] or 'accept' in fmt(strip(g['expr'])):
+                acc.add(g['bb'])
+        # last-store-is-zero analysis from each mask look-up, cut at the accept tests
+        for m in ms:
+            sites += 1
+            state = {}
+            work = [] if m in acc else [(s2, False) for s2 in b.succ[m]]
+            # the look-up block itself may already store to `active` after the index; start after it
+            viol = None
+            seen = {}
+            while work and viol is None:
+                bb, z = work.pop()
+                if bb in acc:
+                    continue
+                if bb == m or b.term(bb)['k'] == 'return':
+                    if not z:
+                        viol = bb
+                    continue
+                if seen.get(bb) is not None and (seen[bb] is False or seen[bb] == z):
+                    continue
+                seen[bb] = z if seen.get(bb) is None else (seen[bb] and z)
+                z2 = seen[bb]
+                for s in b.stmts(bb):
+                    if s['k'] == 'assign' and any(isinstance(el, dict) and el.get('n') == 'active' for el in (s['p'].get('pj') or [])) \
+                            or (s['k'] == 'assign' and not s['p'].get('pj') and b.local_name(s['p']['l']) == 'active'):
+                        r = s['r']
+                        z2 = r['k'] == 'use' and isinstance(r['o'].get('k'), dict) and r['o']['k'].get('v') == 0
+                for s2 in b.succ[bb]:
+                    work.append((s2, z2))
+            if viol is not None:
+                rep.bad(rule, key, b.loc(viol), 'a path from the mask look-up reaches %s without testing `active & accept` (and '
+                                                'without `active` being the constant 0): occurrences ending at that symbol are '
+                                                'not reported' % ('the next look-up' if viol == m else 'a return'))
+            else:
+                rep.ok(rule, key, b.loc(m), 'accept test on every path')
+    rep.floor(rule, 'mask look-ups', sites, 1)
